@@ -86,6 +86,7 @@ type peerQ struct {
 	fwdArrived  bool
 	fwdArrivedT int64
 	peerResult  *retSpec // what the peer capability answered to the looped-back call
+	retGen      map[uint32]int
 }
 
 // peerA is an answer the peer owes (a question of the Conn).
@@ -355,6 +356,9 @@ func (s *solo) connSentDescs(ds []rpcbench.WDesc, srcs []capSrc, ctx string) {
 func (s *solo) peerDropsConnRefs(id uint32, n int) {
 	if e := s.cexp[id]; e != nil {
 		e.refs -= n
+		if e.refs <= 0 {
+			e.gen++
+		}
 	}
 }
 
